@@ -961,6 +961,8 @@ type factWalker struct {
 	// order, and whether a declaration of the kind was met after a Make of the kind
 	ioDecl, ioMade map[string][]string
 	ioLate         map[string]bool
+	// per function: how often each channel has been handed to an inlined (non-go) call so far
+	inlineChan map[string]int
 }
 
 func (w *factWalker) goPush() { w.gsc = append(w.gsc, map[string]*gbind{}) }
@@ -1102,6 +1104,23 @@ func (w *factWalker) exprFacts(e ast.Expr) {
 				if fd := w.funcs[id.Name]; fd != nil && countReturns(fd.Body) > 1 {
 					w.f.MultiReturn = append(w.f.MultiReturn, id.Name)
 				}
+				if fd := w.funcs[id.Name]; fd != nil && fd.Type.Params != nil {
+					i := 0
+					for _, p := range fd.Type.Params.List {
+						for range p.Names {
+							if _, isChan := p.Type.(*ast.ChanType); isChan && i < len(x.Args) {
+								if a, ok := x.Args[i].(*ast.Ident); ok {
+									w.lab("inline-call-with-chan")
+									w.inlineChan[a.Name]++
+									if w.inlineChan[a.Name] == 2 {
+										w.lab("chan-passed-to-inline-call-twice")
+									}
+								}
+							}
+							i++
+						}
+					}
+				}
 			}
 		}
 		return true
@@ -1150,6 +1169,9 @@ func (w *factWalker) stmt(s ast.Stmt) {
 					w.lab("var-chan")
 					w.f.HasChan = true
 					w.f.Channels++
+					if len(w.inlineChan) > 0 {
+						w.lab("chan-declared-after-inline-call-with-chan")
+					}
 				case *ast.SelectorExpr:
 					w.lab("var-" + t.Sel.Name)
 					if isBondgoSel(t, "Input") || isBondgoSel(t, "Output") {
@@ -1393,6 +1415,7 @@ func StaticFacts(src string) (*Facts, error) {
 		w.scopes = []factScope{{pm, w.fresh(), false}}
 		w.gsc = []map[string]*gbind{{}}
 		w.brk = nil
+		w.inlineChan = map[string]int{}
 		w.ioDecl, w.ioMade, w.ioLate = map[string][]string{}, map[string][]string{}, map[string]bool{}
 		if fd.Type.Params != nil {
 			for _, p := range fd.Type.Params.List {
